@@ -414,3 +414,97 @@ def c14(ctx):
                         if nt:
                             ctx.nontrivial.add(hash(txt))
                             ctx.add_sample([json.loads(x) for x in run[:16]])
+
+
+# ---------------------------------------------------------------------------
+# C11: endpoint registry
+
+def registry_wrap_program(path):
+    """One long program that walks the ephemeral port counter through its wrap while one
+    socket keeps holding the first ephemeral port."""
+    ops = [{"op": "bind", "s": "U1", "a": "any4", "p": 0}, {"op": "bind", "s": "T1", "a": "any4", "p": 0}]
+    for i in range(64200):
+        s = "U2" if i % 2 == 0 else "T2" if i % 4 == 1 else "U3"
+        ops.append({"op": "bind", "s": s, "a": "any4", "p": 0})
+        ops.append({"op": "close", "s": s})
+        ops.append({"op": "open", "s": s, "fam": "v4"})
+    with open(path, "w") as f:
+        f.write(json.dumps({"ops": ops}) + "\n")
+
+
+def classify_registry_reject(rj):
+    try:
+        e = json.loads(rj["event"])
+    except ValueError:
+        return "registry.reject@end"
+    if e.get("e") == "Op":
+        d = e.get("op")
+        if d == "bind":
+            return "registry.bind(%s:%s)->%s" % (e.get("a"), "0" if e.get("p") == 0 else ("priv" if e.get("p") < 1024 else "port"), e.get("ec"))
+        return "registry.%s->%s" % (d, e.get("ec"))
+    if e.get("e") == "Probe":
+        return "registry.probe-%s(who=%s)" % (e.get("proto"), (e.get("who") or "nobody")[:12])
+    return "registry.reject@" + str(e.get("e"))
+
+
+@check("C11", "model_checking")
+def c11(ctx):
+    q = ctx.tier == "quick"
+    ctx.rule = ("programs = sequences of open/bind(explicit, wildcard, port 0, privileged, foreign, wrong family)/listen/"
+                "connect/close/move/destroy over 2 TCP sockets, an acceptor and 3 UDP sockets on a multi-homed and a "
+                "single-homed node, enumerated by TLC from MCRegistry.tla (exhaustive for 2 ops, random walks of 9 ops) plus "
+                "one 192 600-op program walking the ephemeral counter through its wrap; each runs on the real sockets, every "
+                "result (error code, local_endpoint) and end-of-run probes (who receives a datagram / accepts a connect "
+                "on every endpoint ever used, also after the accepted sockets were closed) are validated by TLC against "
+                "Registry.tla; non-trivial = >= 1 successful bind followed by close/move/destroy/re-open or a refused bind; "
+                "distinct by program text")
+    ctx.assumptions = ["a successful second bind of an already bound socket is unspecified and never executed",
+                       "precedence among simultaneous refusal reasons is left open (any applicable error accepted)"]
+    vlib.tlc_mc(ctx, "MCRegistry.tla", "MC_Registry.cfg" if q else "MC_Registry_t.cfg", timeout=900)
+    files = []
+    f1 = ctx.path("gs_bfs.ndjson")
+    vlib.tlc_gen(ctx, "GenRegistry.tla", "Gen_Registry_2.cfg", f1, timeout=900)
+    files.append(f1)
+    f2 = ctx.path("gs_sim.ndjson")
+    vlib.tlc_gen(ctx, "GenRegistry.tla", "Gen_Registry_sim.cfg", f2, simulate=(4 if q else 60, 30))
+    files.append(f2)
+    f3 = ctx.path("gs_wrap.ndjson")
+    registry_wrap_program(f3)
+    files.append(f3)
+    ctx.exhaustive = True
+    for f in files:
+        res, total, chunks = vlib.replay(ctx, "record-registry", f, keep=True, env={"VH_WALL_LIMIT": "900"})
+        bad = [r for r in res if not r.get("ok")]
+        cases = vlib.read_lines(f, [r["i"] for r in bad[:50]]) if f != f3 else {}
+        for r in bad:
+            ctx.violation("registry." + r["sig"], r.get("msg", ""), cases.get(r["i"], {"index": r["i"]}),
+                          {"subcmd": "record-registry"})
+        ctx.evaluations += len(res)
+        traces = [c + ".trace" for c in chunks if os.path.exists(c + ".trace")]
+        out = vlib.validate_traces(ctx, "TraceRegistry.tla", "Trace_Registry.cfg", traces)
+        for (nruns, nev, rejected), tp in zip(out, traces):
+            ctx.traces += nruns
+            for rj in rejected:
+                sig = classify_registry_reject(rj)
+                lines = rj["lines"] if len(rj["lines"]) < 400 else rj["lines"][:5] + ["..."] + rj["lines"][max(0, rj["at"] - 20):rj["at"] + 3]
+                ctx.violation(sig, "trace rejected at event %d: %s" % (rj["at"], rj["event"][:300]),
+                              {"trace": lines}, {"kind": "trace", "module": "TraceRegistry.tla", "cfg": "Trace_Registry.cfg"})
+            if f == f3:
+                continue
+            with open(tp) as fh:
+                run = []
+                for line in fh:
+                    if line.startswith('{"e":"Cfg"'):
+                        run = []
+                    run.append(line)
+                    if line.startswith('{"e":"End"'):
+                        ops = [x for x in run if x.startswith('{"e":"Op"')]
+                        okb = [k for k, x in enumerate(ops) if '"op":"bind"' in x and '"ec":"ok"' in x]
+                        nt = any('"ec":"in_use"' in x or '"ec":"access_denied"' in x for x in ops)
+                        if okb and any(('"op":"close"' in x or '"op":"move"' in x or '"op":"destroy"' in x or '"op":"open"' in x)
+                                       for x in ops[okb[0] + 1:]):
+                            nt = True
+                        if nt:
+                            txt = "".join(ops)
+                            ctx.nontrivial.add(hash(txt))
+                            ctx.add_sample([json.loads(x) for x in ops[:12]])
